@@ -8,6 +8,7 @@ import HT.Model.Limiter
 import HT.Model.JA3
 import HT.Model.Auth
 import HT.Model.Event
+import HT.Model.Path
 /-!
 Line-protocol driver: one case per input line, `<model> <args…>`; one output line
 per case.  Core Lean only (so it links as an executable).
@@ -30,6 +31,7 @@ def dispatch (line : String) : String :=
   | "ja3" :: args => JA3.driver args
   | "auth" :: args => Auth.driver args
   | "ev" :: args => Ev.driver args
+  | "path" :: args => Path.driver args
   | _ => "bad-model"
 
 partial def loop (h : IO.FS.Stream) (out : IO.FS.Stream) : IO Unit := do
